@@ -1,12 +1,13 @@
 """C04 -- class constraints complete and independent of declaration order."""
-from . import formula
+from . import formula, c07, common
 
 LEVEL = "other"
 EXPLANATION = ("Pair-domain analysis of the constraint generators (abstract truth table of the skip predicate over "
                "same-sample / index order / symmetry flag), exchange-invariance and diagonal-triviality queries on the normal "
                "forms of all emitted conditions, whole-list loop domains of generators and LMI builders, existence of the "
                "stationary sample before stationary x sample enumeration, and equivalence of every documented condition with "
-               "an emitted one (spec/classes.py).")
+               "an emitted one (spec/classes.py); the stationary list the stationary x sample conditions range over is fed by add_point "
+               "for every sample whose pruned gradient is zero, however the sample reached the function (R-STAT).")
 TRUSTED = ["CPython ast", "spec/classes.py", "sa/nf.py arithmetic"]
 ASSUMPTIONS = ["that a finite primal value is attained by a real member (interpolation theorems) is not decided",
                "equality of worst-case values under permutation follows from these rules only for the feasible set"]
@@ -21,6 +22,8 @@ def run(ctx):
     formula.r_statpair(ctx)
     formula.r_domain(ctx)
     formula.r_regen(ctx)
+    common.r_argbind(ctx, {"add_constraints_from_two_lists_of_points", "add_constraints_from_one_list_of_points"})
+    c07.r_stationary_list(ctx)   # conditions over list_of_stationary_points see every zero-gradient sample, however it was recorded
     ctx.floor("class families", len(ca.families), 24)
     ctx.floor("class conditions", n, 40)
     ctx.floor("two-list call sites", sites, 27)
